@@ -370,6 +370,22 @@ fn pool_world(finish: Finish) {
                             w.block_on(CV_AUX, |st| if st.rdv_arrived >= size { Some(()) } else { None });
                             w.with(|st| st.reach("rendezvous_of_n_completed"));
                         }
+                        TaskKind::Round(r) => {
+                            w.with(|st| {
+                                *st.round_arrived.entry(r).or_insert(0) += 1;
+                                st.note(CV_AUX);
+                            });
+                            w.block_on(CV_AUX, |st| if st.round_arrived.get(&r).copied().unwrap_or(0) >= size { Some(()) } else { None });
+                            w.with(|st| {
+                                if r % 1000 == 999 {
+                                    st.reach("thousand_rendezvous_rounds_completed");
+                                }
+                                // finished rounds are forgotten (the map stays small)
+                                if r >= 2 {
+                                    st.round_arrived.remove(&(r - 2));
+                                }
+                            });
+                        }
                         TaskKind::Gated => {
                             w.block_on(CV_AUX, |st| if st.gate_open { Some(()) } else { None });
                         }
